@@ -207,6 +207,9 @@ func runPolicy(w *out.W, tier string) {
 	if r := clirun.Run(os.TempDir(), nil, "verif-diffopts", "--help"); r.Exit != 0 {
 		w.Set("policy_hook", "MISSING in "+clirun.Bin()+": stage not run (cmd/atlas/internal/cmdapi/verif_diffopts.go is not in the tree the CLI was built from)")
 		fmt.Fprintln(os.Stderr, "policy stage: hook command verif-diffopts missing in", clirun.Bin(), "- stage skipped")
+		// one placeholder record: lib/verif.py reads stats.samples of every stage (null crashes it)
+		w.ImplOnly("p0", "policy stage NOT RUN: hook command verif-diffopts missing in the CLI under test")
+		w.Count("policy:skipped-hook-missing")
 		return
 	}
 	w.Set("policy_hook", "present")
